@@ -52,7 +52,7 @@ const KEYS: [&str; 25] = [
     "duration",
 ];
 
-fn mk_style(key: &str, obs: &Arc<StdMutex<ObsShared>>) -> ProgressStyle {
+fn mk_style(key: &str, obs: &Arc<StdMutex<ObsShared>>, aux: &Arc<StdMutex<ObsShared>>) -> ProgressStyle {
     ProgressStyle::with_template(&format!("<{{{key}}}>{{obs}}"))
         .unwrap()
         .tick_strings(&["0", "1", "2", "3", "4", "5", "6", "7", "8", "9", "F"])
@@ -60,6 +60,15 @@ fn mk_style(key: &str, obs: &Arc<StdMutex<ObsShared>>) -> ProgressStyle {
             "obs",
             Obs {
                 shared: obs.clone(),
+                text: String::new(),
+            },
+        )
+        // a custom key that is registered with the style but not shown by the template: it
+        // must be ticked and reset together with the bar all the same
+        .with_key(
+            "aux",
+            Obs {
+                shared: aux.clone(),
                 text: String::new(),
             },
         )
@@ -75,7 +84,8 @@ fn exec(sc: &Scenario) -> Report {
         let pb = ProgressBar::with_draw_target(len, ProgressDrawTarget::term_like(Box::new(term.clone())))
             .with_finish(finish_kind(sc.c("on_finish"), "fin"));
         let obs = Arc::new(StdMutex::new(ObsShared::default()));
-        pb.set_style(mk_style("pos", &obs));
+        let aux = Arc::new(StdMutex::new(ObsShared::default()));
+        pb.set_style(mk_style("pos", &obs, &aux));
         let mut ticks: u64 = 0;
         let mut resets: u64 = 0;
         let mut finished = false;
@@ -135,6 +145,19 @@ fn exec(sc: &Scenario) -> Report {
                 return r;
             }
         }
+        {
+            let (o, a) = (obs.lock().unwrap(), aux.lock().unwrap());
+            if a.ticks != o.ticks || a.resets != o.resets {
+                r.violate(
+                    "C11.tracker_tick",
+                    format!(
+                        "a custom key that is registered but not shown by the template was ticked {} / reset {} times, the one in the template {} / {} times",
+                        a.ticks, a.resets, o.ticks, o.resets
+                    ),
+                );
+                return r;
+            }
+        }
         if obs.lock().unwrap().resets != resets {
             r.violate(
                 "C11.tracker_reset",
@@ -148,7 +171,7 @@ fn exec(sc: &Scenario) -> Report {
         for key in KEYS {
             let ks = key.to_string();
             let drawn = call(|| {
-                pb.set_style(mk_style(&ks, &obs));
+                pb.set_style(mk_style(&ks, &obs, &aux));
                 pb.force_draw();
             });
             if let Err(p) = drawn {
